@@ -25,3 +25,30 @@ Theorem c19_limit_reachable : forall cfg st0 ops st,
   cfg_ok cfg -> init cfg = Ok st0 -> ops_wf ops -> run st0 ops = Ok st ->
   slab_len (r_conns st) <= cf_max_connections cfg.
 Proof. exact reachable_limit. Qed.
+
+(** Admission decision of the per-connection task (M-STACK: mqtt_connect + handle_auth as the
+    pure function [admission], compared with the real task [remote()] by the stack driver). *)
+From Rumqtt Require Stack.Model Stack.Spec Stack.Proofs.
+
+Theorem c19_admit_iff : forall s auth fr,
+  Stack.Model.admission s auth fr = Stack.Model.Admit <-> Stack.Spec.admissible s auth fr.
+Proof. exact Stack.Proofs.c19_admit_iff. Qed.
+
+Theorem c19_admit_explicit : forall s auth fr, Stack.Model.admission s auth fr = Stack.Model.Admit ->
+  exists p, fr = Stack.Model.FirstPacket p /\ Stack.Model.fp_kind p = Stack.Model.KConnect /\
+    Stack.Model.fp_level_ok p = true /\ Stack.Model.fp_keep_alive p <> 0 /\
+    (Stack.Model.fp_client_id p <> [] \/ Stack.Model.fp_clean p = true) /\
+    ((Stack.Model.st_auth s = None /\ Stack.Model.st_external s = false) \/
+     (Stack.Model.st_external s = true /\ exists l, Stack.Model.fp_login p = Some l /\
+        auth (Stack.Model.fp_client_id p) (Stack.Model.lg_user l) (Stack.Model.lg_pass l) = true) \/
+     (Stack.Model.st_external s = false /\ exists l pairs, Stack.Model.fp_login p = Some l /\
+        Stack.Model.st_auth s = Some pairs /\ al_get str_eqb (Stack.Model.lg_user l) pairs = Some (Stack.Model.lg_pass l))).
+Proof. exact Stack.Proofs.c19_admit_explicit. Qed.
+
+Theorem c19_reject_connack : forall s auth fr code,
+  Stack.Model.admission s auth fr = Stack.Model.Reject_connack code ->
+  code = Stack.Model.ClientIdentifierNotValid /\
+  exists p, fr = Stack.Model.FirstPacket p /\ Stack.Model.fp_kind p = Stack.Model.KConnect /\
+    Stack.Model.fp_level_ok p = true /\ Stack.Model.fp_client_id p = [] /\ Stack.Model.fp_clean p = false /\
+    Stack.Model.fp_keep_alive p <> 0 /\ Stack.Spec.creds_accepted s auth p.
+Proof. exact Stack.Proofs.c19_reject_connack. Qed.
